@@ -227,20 +227,32 @@ def gen_cut(rng, knobs=None):
         ref = rng.choice(cands)
         resp_ep = 's' if inits[ref] == 'c' else 'c'
         prog.append(['pump'])
+        from_ep = resp_ep
         if kinds[ref] == 'rr':
-            prog.append(['respond', ref, spec(rng)] if rng.random() < 0.8 else ['respond_error', ref])
+            if rng.random() < 0.8:
+                prog.append(['respond', ref, spec(rng)] if rng.random() < 0.8 else ['respond_error', ref])
+            else:
+                prog.append(['fut_cancel', ref])        # the requester's CANCEL is the last thing the responder reads
+                from_ep = inits[ref]
         else:
             t = rng.random()
             sp = spec(rng)
-            if t < 0.4:
-                prog.append(['emit', ref, 'resp', sp[0], sp[1], 1])
-            elif t < 0.8:
-                prog.append(['complete', ref, 'resp'])
+            role = 'resp'
+            if kinds[ref] == 'channel' and rng.random() < 0.35:
+                role = 'req'                            # the requester's side of a channel ends just before the loss
+                from_ep = inits[ref]
+            if t < 0.35:
+                prog.append(['emit', ref, role, sp[0], sp[1], 1])
+            elif t < 0.7:
+                prog.append(['complete', ref, role])
+            elif t < 0.85:
+                prog.append(['error', ref, role])
             else:
-                prog.append(['error', ref, 'resp'])
+                prog.append(['cancel', ref, 'req'])     # ... or the requester's CANCEL
+                from_ep = inits[ref]
         prog.append(['settle'])
-        prog.append(['deliver_nosettle', resp_ep, None])
-        prog.append(['cut', resp_ep, how])
+        prog.append(['deliver_nosettle', from_ep, None])
+        prog.append(['cut', from_ep, how])
         prog.append(['settle'])
         prog.append(['advance', 450])
         prog.append(['settle'])
